@@ -408,7 +408,9 @@ func (w *W) Err(oracle string, err, tol float64) bool {
 		w.errs[oracle] = a
 	}
 	a.N++
-	if ratio > a.Ratio && !math.IsInf(ratio, 0) {
+	// the margin statistic is kept over cases that are within tolerance:
+	// it shows how close passing cases come to the limit
+	if ratio > a.Ratio && ratio <= 1 {
 		a.Ratio, a.Err, a.Tol = ratio, err, tol
 		a.At = fmt.Sprintf("%s[%d]", w.Class, w.Index)
 	}
